@@ -11,6 +11,10 @@ A case is a small batch of scenarios `(family, cfg, seed)`; each is digested
   inproc | sub-h0 | sub-h1 | sub-hx (fresh interpreters, PYTHONHASHSEED 0, 1, 12345/random) | after-activity | wallclock.
 Transcript: `obs <i> <family> <env> <sha256> <len>`; all environments of a scenario must agree.
 
+`after-activity` runs first: before the scenario it runs another family, the SAME configuration with another seed (same
+classes, same shapes, other seeds — a cache keyed by shape is then filled by the wrong seed), a simulation whose handler
+raised, and it slows the handlers of partition / worker 0 in wall time; `wallclock` slows partition / worker 1
+(`hv/scenarios/fam_parallel.py`: ParallelSimulation with cross-partition ties, thread completion order must not matter).
 `inproc`, `after-activity` and `wallclock` are three runs of the SAME scenario with the SAME seeds in ONE process (the
 third directly after the second, with nothing but the clock patch in between): an unseeded `random.Random()`, OS entropy
 or leftover class-level state shows as a difference between them; hash-order dependence shows between the fresh
@@ -57,7 +61,7 @@ class C03(core.Property):
     hypotheses = ["Equivariant mc g: the handler commutes with renaming event ids by g (it may store, return and cancel ids, not compute with them)",
                   "StrictMono g on ids; g maps the fresh region nextId+j to nextId'+j"]
     variants = ["current"]
-    quick_cases = 16          # × BATCH scenarios
+    quick_cases = 14          # × BATCH scenarios
     thorough_cases = 90         # × BATCH scenarios × 6 environments
     case_timeout_s = 600
     pool_workers = 1
@@ -65,7 +69,8 @@ class C03(core.Property):
     BATCH = 8
     rule = ("one case = a batch of 8 scenarios (family, generated cfg, seed) from hv/scenarios/fam_*.py (round-robin over all "
             "families); each scenario is run in 6 environments (in-process; fresh interpreters with PYTHONHASHSEED 0, 1, 12345; "
-            "after unrelated activity incl. a second Simulation constructed before the run; jumping wall clock — the three in-process "
+            "after unrelated activity incl. another family, the same configuration under another seed, a simulation whose handler raised, "
+            "a second Simulation constructed before the run, partition 0 slowed in wall time; jumping wall clock with partition 1 slowed — the three in-process "
             "environments are the same scenario run three times with the same seeds in one process) and the sha256 "
             "of the canonical digest (delivery sequence (time ns, event type, target) + component statistics, floats as bit "
             "patterns, uuid4 ids renamed by first appearance) is compared; families draw every constructor parameter / policy "
@@ -84,7 +89,8 @@ class C03(core.Property):
         "the model side of C03 is 'a function of explicit inputs': its transcript is 'one digest per scenario'; any "
         "differing environment is both a disagreement and a Spec violation",
         "uuid4-derived message ids are renamed canonically (first appearance) before hashing; their values are random by construction",
-        "thread timing (parallel/) and datetime.now are not perturbed; time.time/monotonic/perf_counter are",
+        "thread timing of ParallelSimulation is perturbed only by slowing one partition's harness handlers with a real sleep "
+        "(partition 0 / partition 1 / nobody); datetime.now is not perturbed; time.time/monotonic/perf_counter are",
         "only environments listed are explored: PYTHONHASHSEED ∈ {0,1,12345}, one kind of preceding activity",
     ]
 
